@@ -47,6 +47,7 @@ Record config := mkConfig {
   c_unauthed : failresp;        (* resolved ResponseOnUnauthed / RoutesRedirectOnUnauthed *)
   c_providers : list bytes;     (* OAuth2 provider names (lower case) *)
   c_preserve : list bytes;      (* RegisterPreserveFields *)
+  c_onetime : bool;             (* the user type implements totp2fa.UserOneTime *)
 }.
 
 Definition has_mod (c : config) (m : modname) : bool := existsb (modname_eqb m) (c_mods c).
